@@ -383,7 +383,7 @@ class Interp:
     def st_If(self, st, env, module, qual):
         c = self.ev(st.test, env)
         if self.spec_mode and isinstance(c, Sym):
-            t = S(smt.truthy(c.term))
+            t = S(self.truthy_term(c))
             if not (z3.is_true(t) or z3.is_false(t)):
                 # generic-index evaluation: no forking; the branches run under a guard and may
                 # only perform guarded dict stores / local assignments
@@ -640,7 +640,7 @@ class Interp:
         tag = "%s%s/loop[%s]" % (getattr(lc, "props", "") and lc.props + "|", fname, getattr(lc, "label", ordinal))
         ctx = LoopCtx(self, env, None, None)
         for nm, g in lc.inv(ctx):
-            P.oblige("%s/inv-init/%s" % (tag, nm), g)
+            P.oblige(self._inv_name(tag, "inv-init", nm), g)
         mode = P.choice(2, "loop %s" % tag)
         for nm in sorted(self.assigned_names(st.body)):
             env.vars[nm] = self.fresh_sym("h_" + nm)
@@ -658,7 +658,7 @@ class Interp:
                 except ContinueEx:
                     pass
                 for nm, g in lc.inv(ctx):
-                    P.oblige("%s/inv-step/%s" % (tag, nm), g)
+                    P.oblige(self._inv_name(tag, "inv-step", nm), g)
                 if variant0 is not None:
                     v1 = lc.variant(ctx)
                     P.oblige("%s/variant-decreases" % tag, z3.And(v1 < variant0, variant0 >= 0))
@@ -841,7 +841,7 @@ class Interp:
         if self.spec_mode and isinstance(c, Sym):
             a = self.ev(node.body, env)
             b = self.ev(node.orelse, env)
-            return Sym(z3.If(smt.truthy(c.term), self.to_term(a), self.to_term(b)))
+            return Sym(z3.If(self.truthy_term(c), self.to_term(a), self.to_term(b)))
         if self.truth(c):
             return self.ev(node.body, env)
         return self.ev(node.orelse, env)
@@ -854,7 +854,7 @@ class Interp:
             ts = []
             for e in node.values:
                 v = self.ev(e, env)
-                ts.append(smt.truthy(self.to_term(v)) if isinstance(v, Sym) else z3.BoolVal(bool(self.truth(v))))
+                ts.append(self.truthy_term(v) if isinstance(v, Sym) else z3.BoolVal(bool(self.truth(v))))
             return Sym(VBool(S(z3.And(*ts) if is_and else z3.Or(*ts))))
         v = None
         for i, e in enumerate(node.values):
@@ -872,7 +872,7 @@ class Interp:
         v = self.ev(node.operand, env)
         if isinstance(node.op, ast.Not):
             if isinstance(v, Sym):
-                return Sym(VBool(S(z3.Not(smt.truthy(v.term)))))
+                return Sym(VBool(S(z3.Not(self.truthy_term(v)))))
             return not self.truth(v)
         if isinstance(node.op, ast.USub):
             if isinstance(v, Sym):
@@ -1029,7 +1029,7 @@ class Interp:
                     for c in g.ifs:
                         cv = self.ev(c, cenv)
                         if isinstance(cv, Sym):
-                            t = S(smt.truthy(cv.term))
+                            t = S(self.truthy_term(cv))
                             if z3.is_false(t):
                                 dead = True
                                 break
@@ -1069,11 +1069,27 @@ class Interp:
         return symbolic_comprehension(self, node, g, it, env)
 
     # ------------------------------------------------------------ truthiness / kinds
+    def truthy_term(self, v):
+        """truth value of a Sym as a formula; a reference to a known object asks its class (__bool__ / __len__) like CPython"""
+        h = self.__dict__.get("ref_resolver")
+        if h is not None and v.iface is None:
+            o = h(self, v)
+            if isinstance(o, (IObject, RObj)):
+                for nm in ("__bool__", "__len__"):
+                    f, _ = o.cls.lookup(nm)
+                    if isinstance(f, IFunction):
+                        r = self.call(IBound(f, o), [], {})
+                        if isinstance(r, Sym):
+                            return smt.truthy(r.term)
+                        return z3.BoolVal(bool(r))
+                return z3.BoolVal(True)
+        return smt.truthy(v.term)
+
     def truth(self, v):
         """Python truthiness; forks on symbolic values (or, in spec mode,
         is not allowed on symbolic values -- spec code uses the z3 helpers)."""
         if isinstance(v, Sym):
-            t = S(smt.truthy(v.term))
+            t = S(self.truthy_term(v))
             if z3.is_true(t):
                 return True
             if z3.is_false(t):
